@@ -155,6 +155,9 @@ func BatchedWriter.Enqueue
   ghost after call Once.Do: cnt0 = aload(bw.scheduledCount)
   ghost after call Bool.Load: accepted = result && aload(bw.scheduledCount) == cnt0 + 1
   ghost before send: assert accepted && aload(bw.scheduledCount) == cnt0 + 1
+  -- the object is looked at (BatchWriteScheduled marks it as scheduled) only after the writer was found running: an object
+  -- offered to a stopped writer is not touched at all
+  ghost before call BatchWriteObject.BatchWriteScheduled: assert accepted
   ghost before send: sent = true
   -- Enqueue itself takes no lock: once it has counted its object, StopBatchWriter - which holds startStopMutex while it waits
   -- for the writer, and the writer waits for the count to drain - would wait for this call, and this call for the mutex
